@@ -56,7 +56,7 @@ func (x *hW) pickDead(name string) int {
 	return idx[vChoice(name, n)]
 }
 
-const hNIllegal = 9
+const hNIllegal = 10
 
 func (x *hW) illegalStep(class int) {
 	w := &x.w
@@ -170,6 +170,34 @@ func (x *hW) illegalStep(class int) {
 		legal := x.exchangeLegal(i, add, rem) && add|rem != 0 && ns&(1<<r) != 0 && x.tgtOK(t)
 		vAssume(!legal)
 		x.opRelExchange(i, add, rem, r, t, api)
+	case 9: // double registration / unregistration of filters, stale handles
+		f, t := x.pickFilter("filter")
+		b := x.mkFilter(f, t)
+		cf := w.Cache().Register(b.f)
+		switch vChoice("how", 3) {
+		case 0:
+			pan, _ := vCatch(func() { w.Cache().Register(&cf) })
+			vAssert(pan, "registering a registered filter again panics")
+			w.Cache().Unregister(&cf)
+		case 1:
+			w.Cache().Unregister(&cf)
+			pan, _ := vCatch(func() { w.Cache().Unregister(&cf) })
+			vAssert(pan, "unregistering a filter twice panics")
+		default:
+			w.Cache().Unregister(&cf)
+			b2 := x.mkFilter(fA, Entity{})
+			cf2 := w.Cache().Register(b2.f)
+			pan, _ := vCatch(func() { w.Cache().Unregister(&cf) })
+			vAssert(pan, "unregistering a stale handle panics also after a later registration")
+			pan, _ = vCatch(func() {
+				q := w.Query(&cf)
+				q.Close()
+			})
+			vAssert(pan, "a query through a stale registered-filter handle panics")
+			x.checkQuery(&cf2, fA, Entity{})
+			w.Cache().Unregister(&cf2)
+		}
+		x.lastPan = true
 	}
 }
 
